@@ -46,6 +46,7 @@ View == <<in, ph, IF Len(cs) = 1 THEN cs ELSE <<>> >>
 (* model-level: C17's round trip and C07's totality on the Ideal layer *)
 RoundTrip == (ph = "doc" /\ Len(cs) = 3) =>
    Parse({}, DefaultCfg, Render(DocSeq[cs[2]], cs[3], 0)) = [v |-> Denotes(DocSeq[cs[2]])]
+NoPanicKnown == \A i \in 1..Len(Cfgs4) : LET r == Parse(Known, Cfgs4[i].c, in) IN ~(IsErr(r) /\ r.err = "panic")
 NoPanic == \A i \in 1..Len(Cfgs4) : LET r == Parse({}, Cfgs4[i].c, in) IN ~(IsErr(r) /\ r.err = "panic")
 
 (* ---- universes ------------------------------------------------------------------ *)
